@@ -225,6 +225,35 @@ def run_cases(mod, ctx, indices, soft_deadline=None):
     ctx.case_index = None
 
 
+def suite_under_monitors(prop, seed, tmp, timeout=1500):
+    """Extra stage (thorough tier): run the repository's own test-suite as a workload with the property's monitors attached
+    (pytest plugin vf.pytest_plugin, guard GRAPHSLAM_VERIF=1).  Returns a dict mergeable by finish()."""
+    repo = os.path.realpath(os.environ.get("VERIF_REPO", "/repo"))
+    out = os.path.join(tmp, "suite_%s.json" % prop)
+    env = dict(os.environ, GRAPHSLAM_VERIF="1", VF_PLUGIN_PROP=prop, VF_PLUGIN_OUT=out, PYTHONPATH=VERIF + os.pathsep + repo, VERIF_SEED=str(seed),
+               OMP_NUM_THREADS="1", OPENBLAS_NUM_THREADS="1", MPLBACKEND="Agg")
+    tests = os.path.join(repo, "tests")
+    if not os.path.isdir(tests):
+        return {"counters": {"suite_under_monitors:tests_directory_missing": 1}}
+    try:
+        r = subprocess.run([PY, "-m", "pytest", "-q", "-x", "-p", "no:cacheprovider", "-p", "vf.pytest_plugin", "--timeout=1200", tests], cwd=repo, env=env,
+                           capture_output=True, text=True, timeout=timeout)
+    except subprocess.TimeoutExpired:
+        return {"counters": {"suite_under_monitors:watchdog": 1}, "inconclusive": {"repository test-suite under monitors: watchdog": 1}}
+    if not os.path.exists(out):
+        return {"counters": {"suite_under_monitors:no_output": 1}, "inconclusive": {"repository test-suite under monitors produced no record: %s" % r.stdout[-300:]: 1}}
+    with open(out) as f:
+        res = json.load(f)
+    counters = {"suite:" + k: v for k, v in res["counters"].items() if not k.startswith(("eval:", "violation:", "vfeat:"))}
+    counters.update({k: v for k, v in res["counters"].items() if k.startswith(("eval:", "violation:", "vfeat:"))})
+    counters["suite_under_monitors:monitored_calls"] = sum(res.get("monitored_calls", {}).values())
+    counters["suite_under_monitors:pytest_exitstatus=%d" % res.get("pytest_exitstatus", -1)] = 1
+    return {"counters": counters, "violations": res["violations"], "nviol": res["nviol"], "evaluations": res["evaluations"], "margins": res["margins"],
+            "inconclusive": {"suite: " + k: v for k, v in res["inconclusive"].items()}, "harness_errors": res["harness_errors"],
+            "coverage": {"repository_test_suite_under_monitors": {"oracle_evaluations": res["evaluations"], "monitored_calls": res.get("monitored_calls", {}),
+                                                                  "pytest_exitstatus": res.get("pytest_exitstatus")}}}
+
+
 # --------------------------------------------------------------------------- #
 # known findings
 # --------------------------------------------------------------------------- #
